@@ -154,10 +154,14 @@ def run(rep, tier, seed, keep=False):
         rstrings = [s for s in strings if len(s) <= 3] if quick else strings
         if quick:
             rstrings = rng.sample(rstrings, 30) + ['', 'a', 'ab', 'xab', 'aab ', 'Ab']
+        rstrings = rstrings + ['a\nb', 'A\nab\n', '\na']       # (line ends: where multiLine and dotAll matter)
         for p in pats:
-            for ic in (False, True):
+            # flag combinations: none, each alone is covered by the pairs below as well, every pair, all three
+            for ic, ml, ds in ((False, False, False), (True, False, False), (True, True, False), (False, True, True), (True, False, True), (True, True, True)):
+                if (ml or ds) and not any(ch in p for ch in '.^$'):
+                    continue
                 try:
-                    cre = re.compile(p, re.UNICODE | (re.IGNORECASE if ic else 0))
+                    cre = re.compile(p, re.UNICODE | (re.IGNORECASE if ic else 0) | (re.MULTILINE if ml else 0) | (re.DOTALL if ds else 0))
                 except re.error:
                     continue
                 ngroups = cre.groups
@@ -172,11 +176,11 @@ def run(rep, tier, seed, keep=False):
                         ms.append({'s': m.start(), 'e': m.end(),
                                    'groups': [[1 if m.group(i) is not None else 0, m.start(i), m.end(i)] for i in range(1, ngroups + 1)],
                                    'names': [[n, gi] for n, gi in names], 'exp': cps(exp)})
-                    rx = "regex($p, ignoreCase => $ic)"
-                    kw = dict(s=s, p=p, ic=ic)
-                    pd = '%r%s' % (p, ' (ignoreCase)' if ic else '')
+                    rx = "regex($p, ignoreCase => $ic, multiLine => $ml, dotAll => $ds)"
+                    kw = dict(s=s, p=p, ic=ic, ml=ml, ds=ds)
+                    pd = '%r%s' % (p, (' (%s)' % ', '.join(n for n, f in (('ignoreCase', ic), ('multiLine', ml), ('dotAll', ds)) if f)) if (ic or ml or ds) else '')
                     add('matches', '%s.matches(%r)' % (pd, s), s, res(eng.ev(rx + '.matches($s)', **kw)), ms=ms)
-                    if not ic:
+                    if not (ic or ml or ds):
                         add('matches', '%r =~ %s' % (s, pd), s, res(eng.ev('$s =~ $p', **kw)), ms=ms)
                         add('notMatches', '%r !~ %s' % (s, pd), s, res(eng.ev('$s !~ $p', **kw)), ms=ms)
                     add('search', '%s.search(%r)' % (pd, s), s, res(eng.ev(rx + '.search($s)', **kw)), ms=ms)
